@@ -110,11 +110,13 @@ namespace {
    struct Hist {
       int assign;
       std::vector<int> pairs;           // each 0..8 = name*3 + slot
+      unsigned observe = 0;             // bit i set: the whole scope is also validated (looked up, selected, read) after step i
       int mode() const { int m = assign; for (int p : pairs) m += p; return m % 3 + 1; }     // address personality, a function of the history
       std::string text() const
       {
          std::string s = "assignment " + std::to_string(assign) + ":";
          for (int p : pairs) s += std::string(" ") + kind_name[assignment[assign][p / 3][p % 3]] + "(" + name_text[p / 3] + ",t" + std::to_string(p % 3) + ")";
+         if (observe) s += " observed-after-steps-mask=" + std::to_string(observe);
          return s;
       }
    };
@@ -132,9 +134,12 @@ namespace {
    {
       std::vector<long long> ops(h.pairs.begin(), h.pairs.end());
       rep.violation(key, static_cast<long long>(h.pairs.size()) * 4 + h.assign, what + " [" + h.text() + "]",
-                    vf::JObj{}.str("pass", "C07").num("assign", h.assign).raw("ops", vf::jarr(ops)).str("history", h.text()).done());
+                    vf::JObj{}.str("pass", "C07").num("assign", h.assign).num("observe", h.observe).raw("ops", vf::jarr(ops)).str("history", h.text()).done());
       if (verbose) std::printf("  VIOLATION %s: %s\n", key.c_str(), what.c_str());
    }
+
+   struct Entry { int name, slot; Kind kind; const ipr::Decl* decl; };
+   void validate(const Hist& h, World& w, const std::vector<Entry>& model);
 
    void run(const Hist& h)
    {
@@ -142,8 +147,8 @@ namespace {
       vf::env::set_alloc(vf::env::Alloc(h.mode()));
       struct Reset { ~Reset() { vf::env::set_alloc(vf::env::Alloc::Malloc); vf::env::arena_reset(); } } reset;
       World w;
-      struct Entry { int name, slot; Kind kind; const ipr::Decl* decl; };
       std::vector<Entry> model;
+      int step = 0;
       for (int p : h.pairs) {
          Kind k = assignment[h.assign][p / 3][p % 3];
          const ipr::Decl* d = w.declare(k, p / 3, p % 3);
@@ -151,7 +156,26 @@ namespace {
          rep.count("states");
          if (d == nullptr) { fail("C07:declare:null", h, "a declaration factory returned null"); return; }
          model.push_back({ p / 3, p % 3, k, d });
+         if ((h.observe >> step) & 1u) { validate(h, w, model); rep.count("intermediate_observations"); }
+         ++step;
       }
+      validate(h, w, model);
+      rep.count("traces");
+      {
+         const std::size_t n = model.size();
+         std::map<int, int> g;
+         for (auto& e : model) ++g[e.name * 3 + e.slot];
+         std::string sig;
+         for (auto& [k, c] : g) sig += char('0' + std::min(c, 9));
+         std::sort(sig.begin(), sig.end());
+         rep.member("outcomes", sig);
+         if (g.size() < n and h.observe == 0) rep.count("distinct_nontrivial");           // at least one redeclaration
+      }
+      cur = nullptr;
+   }
+
+   void validate(const Hist& h, World& w, const std::vector<Entry>& model)
+   {
       const ipr::Scope& scope = *w.scope;
       const std::size_t n = model.size();
       // 1. entry order
@@ -221,19 +245,9 @@ namespace {
          }
          catch (const std::exception& x) { fail("C07:decl-set:refused", h, which + ".decl_set() refused: " + x.what()); }
       }
-      rep.count("traces");
-      {
-         std::map<int, int> g;
-         for (auto& e : model) ++g[e.name * 3 + e.slot];
-         std::string sig;
-         for (auto& [k, c] : g) sig += char('0' + std::min(c, 9));
-         std::sort(sig.begin(), sig.end());
-         rep.member("outcomes", sig);
-         if (g.size() < n) rep.count("distinct_nontrivial");           // at least one redeclaration
-      }
-      cur = nullptr;
    }
 
+   int observe_depth = 6;
    void enumerate(int depth)
    {
       long long idx = 0;
@@ -241,7 +255,13 @@ namespace {
          std::vector<int> p(d, 0);
          while (true) {
             for (int a = 0; a < 4; ++a)
-               if (opt.mine(idx++)) run(Hist{ a, p });
+               if (opt.mine(idx++)) {
+                  run(Hist{ a, p, 0u });                                              // default: the scope is only examined at the end
+                  if (d >= 2 and d <= observe_depth) {
+                     for (int s = 0; s + 1 < d; ++s) run(Hist{ a, p, 1u << s });      // one deviation: also examined after step s
+                     if (d > 2) run(Hist{ a, p, (1u << (d - 1)) - 1u });             // examined after every step
+                  }
+               }
             int i = d - 1;
             while (i >= 0 and ++p[i] == 9) p[i--] = 0;
             if (i < 0) break;
@@ -322,27 +342,42 @@ namespace {
             std::vector<const ipr::Name*> names;
             std::vector<const ipr::Type*> types;
             for (auto o : hw.ops) { names.push_back(nm[o / 3]); types.push_back(ty[o % 3]); }
-            // parameter list (through a mapping)
-            {
-               hw.container = "parameter-list";
-               auto* map = lex.make_mapping(region, ipr::Mapping_level{ 2 });
-               std::vector<const ipr::Parameter*> made;
-               for (int i = 0; i < len; ++i) { made.push_back(map->param(*names[i], *types[i])); rep.count("transitions"); rep.count("states"); }
-               auto& pl = map->parameters();
-               check_homogeneous<ipr::Parameter>(hw, pl.elements(), pl.region().bindings(), names, types, made, *nm[NN], lex.double_type());
-               for (auto p : made) if (std::size_t(p->level()) != 2) hfail("C07:parameter-list:level", hw, "a parameter does not report the nesting level of its list");
-               if (&pl.type() != &pl.region().bindings().type()) hfail("C07:parameter-list:type", hw, "the list's type is not its scope's type");
-               rep.count("traces");
-            }
-            // enumeration (types play no role: every enumerator has the enum as its type) -- once per name sequence
-            if (tc == 0) {
-               hw.container = "enumeration";
-               auto* en = lex.make_enum(region, ipr::Enum::Kind::Scoped);
-               std::vector<const ipr::Enumerator*> made;
-               std::vector<const ipr::Type*> etypes(len, en);
-               for (int i = 0; i < len; ++i) { made.push_back(en->add_member(*names[i])); rep.count("transitions"); rep.count("states"); }
-               check_homogeneous<ipr::Enumerator>(hw, en->members(), en->region().bindings(), names, etypes, made, *nm[NN], lex.double_type());
-               rep.count("traces");
+            // observation schedules: only at the end; additionally after one step s; after every step
+            std::vector<unsigned> masks{ 0u };
+            for (int s2 = 0; s2 + 1 < len; ++s2) masks.push_back(1u << s2);
+            if (len > 2) masks.push_back((1u << (len - 1)) - 1u);
+            for (unsigned mask : masks) {
+               auto prefix = [&](auto v, int k) { v.resize(std::size_t(k)); return v; };
+               HWitness pw = hw;
+               if (mask) pw.text += "(observed after steps mask " + std::to_string(mask) + ")";
+               // parameter list (through a mapping)
+               {
+                  pw.container = "parameter-list";
+                  auto* map = lex.make_mapping(region, ipr::Mapping_level{ 2 });
+                  std::vector<const ipr::Parameter*> made;
+                  auto& pl = map->parameters();
+                  for (int i = 0; i < len; ++i) {
+                     made.push_back(map->param(*names[i], *types[i])); rep.count("transitions"); rep.count("states");
+                     if ((mask >> i) & 1u) check_homogeneous<ipr::Parameter>(pw, pl.elements(), pl.region().bindings(), prefix(names, i + 1), prefix(types, i + 1), made, *nm[NN], lex.double_type());
+                  }
+                  check_homogeneous<ipr::Parameter>(pw, pl.elements(), pl.region().bindings(), names, types, made, *nm[NN], lex.double_type());
+                  for (auto p : made) if (std::size_t(p->level()) != 2) hfail("C07:parameter-list:level", pw, "a parameter does not report the nesting level of its list");
+                  if (&pl.type() != &pl.region().bindings().type()) hfail("C07:parameter-list:type", pw, "the list's type is not its scope's type");
+                  rep.count("traces");
+               }
+               // enumeration (types play no role: every enumerator has the enum as its type) -- once per name sequence
+               if (tc == 0) {
+                  pw.container = "enumeration";
+                  auto* en = lex.make_enum(region, ipr::Enum::Kind::Scoped);
+                  std::vector<const ipr::Enumerator*> made;
+                  std::vector<const ipr::Type*> etypes(len, en);
+                  for (int i = 0; i < len; ++i) {
+                     made.push_back(en->add_member(*names[i])); rep.count("transitions"); rep.count("states");
+                     if ((mask >> i) & 1u) check_homogeneous<ipr::Enumerator>(pw, en->members(), en->region().bindings(), prefix(names, i + 1), prefix(etypes, i + 1), made, *nm[NN], lex.double_type());
+                  }
+                  check_homogeneous<ipr::Enumerator>(pw, en->members(), en->region().bindings(), names, etypes, made, *nm[NN], lex.double_type());
+                  rep.count("traces");
+               }
             }
          }
          if (len == maxlen) return;
@@ -378,6 +413,8 @@ namespace {
                types.push_back(pool[b]);
                hw.ops.push_back(b);
                hw.text += std::string(1, char('A' + b)) + " ";
+               // odd-numbered arrangements are also examined after every single addition, the others only at the end
+               if (idx & 1) check_homogeneous<ipr::Base_type>(hw, derived->bases(), made[0]->home_region().bindings(), names, types, made, lex.get_identifier(u8"Z"), lex.double_type());
             }
             if (not made.empty())
                check_homogeneous<ipr::Base_type>(hw, derived->bases(), made[0]->home_region().bindings(), names, types, made, lex.get_identifier(u8"Z"), lex.double_type());
@@ -440,7 +477,7 @@ int main(int argc, char** argv)
          homogeneous(5);
       }
       else {
-         Hist h{ int(vf::json_int(text, "assign")), std::vector<int>(ops.begin(), ops.end()) };
+         Hist h{ int(vf::json_int(text, "assign")), std::vector<int>(ops.begin(), ops.end()), unsigned(vf::json_int(text, "observe")) };
          std::printf("replay C07: %s\n", h.text().c_str());
          run(h);
       }
@@ -449,12 +486,13 @@ int main(int argc, char** argv)
    }
    const bool deep = opt.thorough();
    homogeneous(5);
+   observe_depth = deep ? 7 : 5;
    enumerate(deep ? 8 : 6);
    if (opt.shard == 0) {
       rep.info("bounds", vf::JObj{}.num("max_declaration_sequence_length", deep ? 8 : 6).num("name_type_pairs", 9).num("kind_assignments", 4)
                             .str("homogeneous", "all arrangements of <=5 of 5 names x 3 types (parameter lists), names only (enumerations), <=4 of 4 base classes, 0..3 handlers").done());
-      rep.sample(vf::JObj{}.str("history", Hist{ 1, { 0, 4, 0, 8, 0 } }.text()).str("checked", "elements order, product type, lookup of 4 names, selection by 3+1 types per name, name/type/category/master/decl_set of each declaration").done());
-      rep.sample(vf::JObj{}.str("history", Hist{ 3, { 2, 2, 5, 2 } }.text()).done());
+      rep.sample(vf::JObj{}.str("history", Hist{ 1, { 0, 4, 0, 8, 0 }, 0u }.text()).str("checked", "elements order, product type, lookup of 4 names, selection by 3+1 types per name, name/type/category/master/decl_set of each declaration").done());
+      rep.sample(vf::JObj{}.str("history", Hist{ 3, { 2, 2, 5, 2 }, 2u }.text()).done());
    }
    rep.write(opt);
    return 0;
